@@ -285,6 +285,7 @@ func (c *ctx) refConn(d model.Doc, i int) {
 		}
 		if string(w.secret) != adm.Key {
 			c.v("C13/wrong-scope-key", "conn %d from %s must be bound to scope %s (first matching secret configuration) but got another key", id, cs.Addr, adm.Scope)
+			c.v("C19/connection-keyed-with-another-scopes-secret", "conn %d from %s: the connection's secret is scope %s's key, the server reads it with %q: requests under the right key are flagged as mismatches and requests under the wrong one are served", id, cs.Addr, adm.Scope, w.secret)
 			return
 		}
 	}
